@@ -111,7 +111,7 @@ class MDModel:
         self.d[k] = list(vs)
 
     def setdefault(self, k, default):
-        if k not in self.d:
+        if not self.d.get(k):  # a key without values has nothing to return: the default is stored
             self.d[k] = [default]
         return self.getitem(k)
 
